@@ -426,6 +426,46 @@ class ConcRun(object):
                     return None
                 op.setdefault('kind', k)
                 batch.append(op)
+        elif self.focus == 'move':
+            # PUT /resource_providers/{u} (rename, move, detach: carries no
+            # generation and must not disturb it) racing guarded and
+            # self-derived writes to that provider
+            u = rng.choice(ex)
+            g.focus_p = [u]
+            mv = None
+            for _ in range(20):
+                cand = g.g_rp_update(m)
+                if cand is not None and not cand.get('defect') and \
+                        cand.get('note') in ('reparent', 'unparent', None):
+                    mv = cand
+                    break
+            if mv is None:
+                return None
+            mv['kind'] = 'rp_update'
+            batch.append(mv)
+            kinds = ['inv_put_all', 'inv_put_all', 'inv_put_one', 'rpt_put',
+                     'agg_put', 'reshape', 'inv_post', 'inv_delete_one',
+                     'rpt_delete', 'alloc_put', 'alloc_post']
+            for i in range(1, max(n, 2)):
+                k = rng.choice(kinds)
+                op = None
+                for _ in range(10):
+                    if k == 'agg_put':
+                        g.versions = ['1.19', '1.28', '1.39']
+                    elif k in ('alloc_put', 'alloc_post', 'reshape'):
+                        g.versions = ['1.28', '1.30', '1.34', '1.38',
+                                      '1.39']
+                    op = getattr(g, 'g_' + k)(m)
+                    g.versions = None
+                    if op is not None:
+                        break
+                    k = rng.choice(kinds)
+                if op is None:
+                    return None
+                op.setdefault('kind', k)
+                batch.append(op)
+            if rng.random() < 0.5:
+                batch.reverse()
         elif self.focus == 'consumer':
             c = rng.choice(g.C)
             allC = g.C
